@@ -22,8 +22,9 @@ Operations outside that theorem, and why:
     timestamp, offset, trailing bytes — for the regenerated operation by `listOffsets_gen_shape`);
     `listOffsets_two_partitions_counterexample` shows why the shape hypothesis is needed, `listOffsets_wf_example`
     is a concrete instance.
-  * fetch (`ReadBatchWith`/`Batch`): `fetch_aligned_or_closed`, for every message-set reader that conserves bytes, with
-    the hypothesis that a response at the high watermark carries an empty set (`fetch_at_watermark_counterexample`).
+  * fetch (`ReadBatchWith`/`Batch`): `fetch_aligned_or_closed`, for every message-set reader that conserves bytes (the
+    hypothesis is discharged for the reader stack of message_reader.go: `stackBody_conserves`); unconditional since the
+    fix C11-D32 (`fetch_at_watermark_counterexample` keeps the unfixed shape).
   * apiVersions: no `expectZeroSize`, no close on error in the Go code, so nothing can be said about arbitrary bytes;
     `apiVersions_aligned_wf`: on every well-formed v0 frame (any error code, any number of entries, anything after
     the frame) the result is ok / that kafka error and exactly the frame is consumed.
@@ -284,12 +285,13 @@ example : d2Body.length = 37 ∧ beInt ((d2Frame 1).take 4) = d2Body.length + 4 
 /-! ### fetch -/
 
 /-- C11 for fetch (ReadBatchWith, reading the batch to its end, Batch.Close), for EVERY message-set reader that
-conserves bytes.  `hwf`: a response whose high watermark equals the fetch offset carries an empty message set. -/
+conserves bytes — no hypothesis on the frame (since the fix C11-D32 the message set of a response at the high watermark is
+skipped as well). -/
 theorem fetch_aligned_or_closed (v : Nat) (offset : Int) (b : Body) (c : Conn) (hdr body rest : Bytes)
     (hb : b.Conserves) (hopen : c.closed = false)
     (hstream : c.stream = hdr ++ body ++ rest) (hlen : hdr.length = 8)
     (hsize : beInt (hdr.take 4) = body.length + 4) (hid : beInt (hdr.drop 4) = c.nextId)
-    (hwf : ∀ cx s1, runSteps (fetchHeader v) { ver := v } ⟨body ++ rest, body.length⟩ = (.ok cx, s1) → cx.hwm = offset → s1.sz = 0) :
+    :
     ((connFetch true v offset b c).1.isFail = false ∧
         (connFetch true v offset b c).2 = { stream := rest, nextId := c.nextId + 1, closed := false }) ∨
     ((connFetch true v offset b c).1.isFail = true ∧ (connFetch true v offset b c).2.closed = true) := by
@@ -300,18 +302,19 @@ theorem fetch_aligned_or_closed (v : Nat) (offset : Int) (b : Body) (c : Conn) (
   | true => right; simp
   | false =>
     left
-    have hz := fetchRead_full v offset b ⟨body ++ rest, body.length⟩ hb (by simp) hwf hf
+    have hz := fetchRead_full v offset b ⟨body ++ rest, body.length⟩ hb (by simp) hf
     have ha := (fetchRead_adv true v offset b ⟨body ++ rest, body.length⟩ hb).consumed_all hz
     simp only [List.drop_left] at ha
     simp [ha.2]
 
-/-- why `hwf` is there: header ok, high watermark = fetch offset, but a non-empty set: the Go code takes the
-`messageSetReader{empty: true}` path, reports RequestTimedOut and leaves the set unread on a Conn it keeps.
-(No broker sends this; recorded as an observation in docs/notes/C11.md, replayed through the driver.) -/
+/-- C11-D32 (fixed): header ok, high watermark = fetch offset, but a non-empty set — the Go code takes the
+`messageSetReader{empty: true}` path and reports RequestTimedOut; before the fix it left the set unread on a Conn it
+keeps (first line, the unfixed shape), now it skips it (second line). -/
 def atWatermarkBody : Bytes :=
   [0,0,0,0, 0,0,0,1, 0,1,116, 0,0,0,1, 0,0,0,0, 0,0, 0,0,0,0,0,0,0,5, 0,0,0,3, 1,2,3]
 theorem fetch_at_watermark_counterexample :
-    fetchRead true 2 5 idealBody ⟨atWatermarkBody, atWatermarkBody.length⟩ = (.kafka 7, ⟨[1,2,3], 3⟩) := by decide
+    fetchRead false 2 5 idealBody ⟨atWatermarkBody, atWatermarkBody.length⟩ = (.kafka 7, ⟨[1,2,3], 3⟩) ∧
+    fetchRead true 2 5 idealBody ⟨atWatermarkBody, atWatermarkBody.length⟩ = (.kafka 7, ⟨[], 0⟩) := by decide
 
 /-- D2 for fetch v10 (top-level error) and v5 (partition error): unfixed shape leaves bytes, fixed shape does not -/
 def fetchErrV10 : Bytes := [0,0,0,0, 0,6, 0,0,0,9, 0,0,0,0]
